@@ -89,6 +89,9 @@ pub struct Gen<'a> {
     pub forms: HashMap<&'static str, usize>,
     /// probe leaves are compared with fresh witnesses `E<k>` instead of probe literals
     pub probe_leaves_as_witness: bool,
+    /// out of 100: probability that a probe ignores a component of a tuple or array (`_`
+    /// pattern), so that parts of a value stay uninspected next to inspected ones
+    pub probe_skip_pct: usize,
     pub probe_leaf_witnesses: Vec<(String, Ty)>,
 }
 
@@ -146,6 +149,7 @@ impl<'a> Gen<'a> {
             jets_by_ret,
             forms: HashMap::new(),
             probe_leaves_as_witness: false,
+            probe_skip_pct: 0,
             probe_leaf_witnesses: vec![],
         }
     }
@@ -638,6 +642,10 @@ impl<'a> Gen<'a> {
 
     /// Emit statements that take `e: ty` apart down to integer leaves and compare each leaf
     /// with a probe literal on the real machine.
+    fn probe_skips(&mut self) -> bool {
+        self.probe_skip_pct > 0 && self.rng.below(100) < self.probe_skip_pct
+    }
+
     pub fn probe(&mut self, e: &Expr, ty: &Ty, out: &mut Vec<Stmt>, level: usize) {
         self.budget -= 1;
         let assert_eq = |g: &mut Self, jet: &str, a: Expr, t: Ty| -> Stmt {
@@ -685,13 +693,16 @@ impl<'a> Gen<'a> {
                     return;
                 }
                 let names: Vec<String> = ts.iter().map(|_| self.fresh("q")).collect();
+                let skip: Vec<bool> = ts.iter().map(|_| self.probe_skips()).collect();
                 out.push(Stmt::Let(
-                    Pat::Tuple(names.iter().map(|n| Pat::Id(n.clone())).collect()),
+                    Pat::Tuple(names.iter().zip(&skip).map(|(n, s)| if *s { Pat::Ignore } else { Pat::Id(n.clone()) }).collect()),
                     ty.clone(),
                     e.clone(),
                 ));
-                for (n, t) in names.iter().zip(ts) {
-                    self.probe(&Expr::Var(n.clone()), t, out, level + 1);
+                for ((n, t), s) in names.iter().zip(ts).zip(&skip) {
+                    if !*s {
+                        self.probe(&Expr::Var(n.clone()), t, out, level + 1);
+                    }
                 }
             }
             Ty::Array(t, n) => {
@@ -703,13 +714,16 @@ impl<'a> Gen<'a> {
                     return;
                 }
                 let names: Vec<String> = (0..*n).map(|_| self.fresh("q")).collect();
+                let skip: Vec<bool> = names.iter().map(|_| self.probe_skips()).collect();
                 out.push(Stmt::Let(
-                    Pat::Array(names.iter().map(|n| Pat::Id(n.clone())).collect()),
+                    Pat::Array(names.iter().zip(&skip).map(|(n, s)| if *s { Pat::Ignore } else { Pat::Id(n.clone()) }).collect()),
                     ty.clone(),
                     e.clone(),
                 ));
-                for n in names {
-                    self.probe(&Expr::Var(n), t, out, level + 1);
+                for (n, s) in names.into_iter().zip(skip) {
+                    if !s {
+                        self.probe(&Expr::Var(n), t, out, level + 1);
+                    }
                 }
             }
             Ty::Option(t) => {
@@ -918,5 +932,10 @@ pub struct Generated {
 }
 
 pub fn generate(rng: Rng, cfg: GenCfg, golden: &Golden) -> Generated {
-    Gen::new(rng, cfg, golden).program()
+    let mut g = Gen::new(rng, cfg, golden);
+    // a third of the programs inspect their values only in part
+    if g.rng.chance(1, 3) {
+        g.probe_skip_pct = 35;
+    }
+    g.program()
 }
